@@ -336,14 +336,20 @@ func keysOf(m map[int]bool) []int {
 // was hit by an injected fault or a cancellation may fail instead, but it may
 // neither invent an object nor claim NOT_FOUND for one that is held.
 func checkRead(c *run.Case, w *run.Worker, site, op string, o *object, want, data []byte, err error, inSink, inSource, disturbed bool) {
+	checkReadP("seq", c, w, site, op, o, want, data, err, inSink, inSource, disturbed)
+}
+
+// checkReadP is checkRead with the prefix of the coverage counters it feeds
+// (every engine has floors over its own counters only).
+func checkReadP(pfx string, c *run.Case, w *run.Worker, site, op string, o *object, want, data []byte, err error, inSink, inSource, disturbed bool) {
 	held := inSink || inSource
 	switch {
 	case err == nil:
-		w.Count("seq_reads_ok", 1)
+		w.Count(pfx+"_reads_ok", 1)
 		if inSink {
-			w.Count("seq_reads_from_sink", 1)
+			w.Count(pfx+"_reads_from_sink", 1)
 		} else {
-			w.Count("seq_reads_from_source", 1)
+			w.Count(pfx+"_reads_from_source", 1)
 		}
 		if !held {
 			c.Violation(site+"."+op+":object-from-nowhere", "%s returned object %d although neither backend holds it", op, o.idx)
@@ -351,12 +357,12 @@ func checkRead(c *run.Case, w *run.Worker, site, op string, o *object, want, dat
 			c.Violation(site+"."+op+":wrong-bytes", "%s returned %s for object %d, want %s", op, gen.Hex8(data), o.idx, gen.Hex8(want))
 		}
 	case status.Code(err) == codes.NotFound:
-		w.Count("seq_reads_notfound", 1)
+		w.Count(pfx+"_reads_notfound", 1)
 		if held {
 			c.Violation(site+"."+op+":not-found-although-held", "%s returned NOT_FOUND (%v) for object %d although a backend holds it (fast/primary=%v slow/secondary=%v)", op, err, o.idx, inSink, inSource)
 		}
 	default:
-		w.Count("seq_reads_failed", 1)
+		w.Count(pfx+"_reads_failed", 1)
 		if !disturbed {
 			c.Violation(site+"."+op+":error-without-fault", "%s failed with %v for object %d without any injected fault (fast/primary=%v slow/secondary=%v)", op, err, o.idx, inSink, inSource)
 		}
@@ -368,12 +374,16 @@ func checkRead(c *run.Case, w *run.Worker, site, op string, o *object, want, dat
 // replicator may skip the copy while its existence cache remembers a
 // successful copy within the configured duration.
 func checkCopied(c *run.Case, w *run.Worker, site, op string, st *stackSpec, sink *gstore, o *object, queuedExcuse bool) {
+	checkCopiedP("seq", c, w, site, op, st, sink, o, queuedExcuse)
+}
+
+func checkCopiedP(pfx string, c *run.Case, w *run.Worker, site, op string, st *stackSpec, sink *gstore, o *object, queuedExcuse bool) {
 	if sink.inner.Has(o.d) {
-		w.Count("seq_read_through_copied", 1)
+		w.Count(pfx+"_read_through_copied", 1)
 		return
 	}
 	if queuedExcuse {
-		w.Count("seq_read_through_skipped_by_queued_cache", 1)
+		w.Count(pfx+"_read_through_skipped_by_queued_cache", 1)
 		return
 	}
 	c.Violation(site+"."+op+":read-through-not-copied",
